@@ -79,6 +79,9 @@ class dtype:
     def __len__(self):
         return 0
 
+    def __bool__(self):
+        return True
+
     @property
     def str(self):
         return {"float64": "<f8", "float32": "<f4", "int32": "<i4", "int64": "<i8", "uint32": "<u4", "bool": "|b1",
@@ -159,6 +162,9 @@ class RecDtype:
 
     def __len__(self):
         return len(self.fields_)
+
+    def __bool__(self):
+        return True
 
     def field(self, name):
         for n, d in self.fields_:
@@ -559,7 +565,7 @@ class ndarray(metaclass=_NdMeta):
         return _reduce(self, axis, lambda a, b: ite(le(b, a), a, b), "maximum")
 
     def sum(self, axis=None):
-        return _reduce(self, axis, lambda a, b: b2i(a) + b2i(b), None, ident=0)
+        return _reduce(self, axis, lambda a, b: a + b, None, ident=0, pre=b2i)
 
     def all(self, axis=None):
         return _npbool(_reduce(self, axis, lambda a, b: And(truth(a), truth(b)), None, ident=True, pre=truth))
@@ -678,7 +684,7 @@ class ndarray(metaclass=_NdMeta):
 
     def __invert__(self):
         if self.dtype.kind != "b":
-            raise ShimUnsupported("~ on non-bool array")
+            raise ShimUnsupported(f"~ on non-bool array ({self.dtype}, {self._d[:3]})")
         return ndarray([Not(x) for x in self._d], self.shape, bool_)
 
     def __and__(self, o):
